@@ -6,15 +6,17 @@
    any stats snapshot and any Accounting-Response outcome, process restarts, orphan prunes.  Its trace pairs every
    notification with the provider calls ISSUED (Start / Interim c ok / Stop c).  [drun] adds asynchronous delivery:
    the calls that ARRIVE at the provider when Start calls may be delayed.
-   Variants:  [V fs fo fl] = /repo HEAD plus any subset of the three open repairs (fix_sent, fix_order, fix_l2stop);
-              [head] = V false false false = /repo HEAD;  [repaired] = V true true true;
-              [defective] = the code as first found (its three defects are fixed in /repo).
+   Variants:  [V fs fo fl] = the code with the first three repairs plus any subset of fix_sent, fix_order, fix_l2stop;
+              [head] = V true false true = /repo HEAD (everything committed: 7e92d8e, e0693a6, d70a5ae, 9b87063, d95fed1);
+              [repaired] = V true true true = HEAD plus ordered delivery (the one finding still open);
+              [before_9b87063] = V false false false; [defective] = the code as first found.
    Hypotheses:  lrun_wraps = false  — no uint64 cumulative wrapped (C09_no_wrap_if_total_small gives it from inputs);
-                no_prune = true     — the 5-minute orphan deadline never passed for the session.       *)
+                no_prune = true     — the 5-minute orphan deadline never passed for the session.
+   [ETick sn false] is "Interim sent, no Accounting-Response (yet)"; [EAck] is a response arriving late.       *)
 From OV Require Import Common.Base C09.Model C09.Proofs.
 Open Scope N_scope.
 
-(* ================= /repo HEAD and every subset of the open repairs ================= *)
+(* ================= uniform in fs fo fl: instantiate fs = fl = true, fo = false for /repo HEAD ================= *)
 
 (* Conformance of the ISSUED calls to the bracket ledger (Model.mon_step), for all histories:
    first Active -> exactly one Start; Active/Restored again -> nothing; Restored never a Start;
@@ -56,8 +58,8 @@ Theorem C09_monotone_acknowledged :
 Proof. exact monotone. Qed.
 Print Assumptions C09_monotone_acknowledged.
 
-(* "from one report to the next" (every value SENT): holds at HEAD as long as no Accounting-Response is lost;
-   with a lost response HEAD violates it (C09_monotone_sent_refuted, recorded finding) *)
+(* "from one report to the next" (every value SENT) without the sent floor (code before 9b87063): only as long as
+   no Accounting-Response is lost *)
 Theorem C09_monotone_sent_if_acknowledged :
   forall fs fo fl g evs, lrun_wraps (V fs fo fl) g sst0 evs = false -> no_prune evs = true ->
   all_acked evs = true ->
@@ -139,9 +141,10 @@ Theorem C09_monotone_on_wire :
 Proof. exact monotone_on_wire. Qed.
 Print Assumptions C09_monotone_on_wire.
 
-(* ================= with the open repairs ================= *)
+(* ================= /repo HEAD (fs = true), and ordered delivery (fo = true, still open) ================= *)
 
-(* fix_sent: every Interim and the Stop are >= the last report SENT, acknowledged or not — all histories *)
+(* /repo HEAD: every Interim and the Stop are >= the last report SENT, acknowledged or not, in flight or not — all
+   histories, including a release while an Interim is unanswered ([ETick _ false; EReleased _]) and late responses *)
 Theorem C09_monotone_sent :
   forall fo fl g evs, lrun_wraps (V true fo fl) g sst0 evs = false -> no_prune evs = true ->
   nondecreasing_sent c4z (outputs (snd (lrun (V true fo fl) g sst0 evs))) = true.
@@ -186,11 +189,11 @@ Definition ex_hist : list sev :=
 Example C09_nonvacuous :
   lrun_wraps head false sst0 ex_hist = false /\ no_prune ex_hist = true /\
   c4_leb (total_readings ex_hist) (C4 (W - 1) (W - 1) (W - 1) (W - 1)) = true /\
-  (* HEAD: 1020 was sent, not acknowledged; after the restart 1005 is sent *)
-  sent_rxb (outputs (snd (lrun head false sst0 ex_hist))) = [400; 1000; 1005; 1020; 1005; 1008; 1014] /\
-  (* with the sent high-water mark: never below 1020 again *)
-  sent_rxb (outputs (snd (lrun repaired false sst0 ex_hist))) = [400; 1000; 1005; 1020; 1020; 1023; 1029] /\
-  lrun_wraps repaired false sst0 ex_hist = false /\
+  (* before 9b87063: 1020 was sent, not acknowledged; after the restart 1005 is sent *)
+  sent_rxb (outputs (snd (lrun before_9b87063 false sst0 ex_hist))) = [400; 1000; 1005; 1020; 1005; 1008; 1014] /\
+  (* /repo HEAD (sent high-water mark): never below 1020 again *)
+  sent_rxb (outputs (snd (lrun head false sst0 ex_hist))) = [400; 1000; 1005; 1020; 1020; 1023; 1029] /\
+  lrun_wraps before_9b87063 false sst0 ex_hist = false /\
   length (filter (fun o => match o with Start => true | _ => false end)
                  (outputs (snd (lrun head false sst0 ex_hist)))) = 1%nat /\
   length (filter (fun o => match o with Stop _ => true | _ => false end)
@@ -207,9 +210,9 @@ Example C09_wire_nonvacuous :
 Proof. vm_compute. repeat split. Qed.
 Print Assumptions C09_wire_nonvacuous.
 
-(* an l2gw session at HEAD: ticks read the l2gw segment (entries 3 = access, 4 = handoff), the segment restarts, the
-   handoff index is lost by a restart until the session is restored; the Stop reads the INTERFACE table at index 3
-   (value 7) — with fix_l2stop it reads the segment (entry 3 = 1 byte) *)
+(* an l2gw session: ticks read the l2gw segment (entries 3 = access, 4 = handoff), the segment restarts, the handoff
+   index is lost by a restart until the session is restored; before d95fed1 the Stop read the INTERFACE table at
+   index 3 (value 7) — /repo HEAD reads the segment (entry 3 = 1 byte) *)
 Definition ex_l2gw : list sev :=
   [EActive 3 4; ETick (Snaps None (Some [(3, (500, 5)); (4, (900, 9))])) true;
    ETick (Snaps None (Some [(3, (40, 1)); (4, (60, 2))])) true; ERestart; ERestored 3 4;
@@ -218,8 +221,8 @@ Definition sent_io (l : list out) : list (N * N) :=
   map (fun c => (rxb c, txb c)) (flat_map (fun o => match o with Interim c _ => [c] | Stop c => [c] | Start => [] end) l).
 Example C09_nonvacuous_l2gw :
   lrun_wraps head true sst0 ex_l2gw = false /\ no_prune ex_l2gw = true /\
-  sent_io (outputs (snd (lrun head true sst0 ex_l2gw))) = [(500, 900); (540, 960); (540, 1060); (547, 1067)] /\
-  sent_io (outputs (snd (lrun (V false false true) true sst0 ex_l2gw))) = [(500, 900); (540, 960); (540, 1060); (541, 1060)].
+  sent_io (outputs (snd (lrun before_9b87063 true sst0 ex_l2gw))) = [(500, 900); (540, 960); (540, 1060); (547, 1067)] /\
+  sent_io (outputs (snd (lrun head true sst0 ex_l2gw))) = [(500, 900); (540, 960); (540, 1060); (541, 1060)].
 Proof. vm_compute. repeat split. Qed.
 Print Assumptions C09_nonvacuous_l2gw.
 
@@ -253,14 +256,18 @@ Proof.
 Qed.
 Print Assumptions C09_prune_hypothesis_needed.
 
-(* ================= /repo HEAD violates the property (recorded findings) ================= *)
-(* a report whose Accounting-Response was lost (2000) is followed by a smaller one (1005) *)
-Theorem C09_monotone_sent_refuted :
-  exists evs, lrun_wraps head false sst0 evs = false /\ no_prune evs = true /\
-              nondecreasing_sent c4z (outputs (snd (lrun head false sst0 evs))) = false.
-Proof. exists [EActive 5 0; ETick (rd 5 1000) true; ETick (rd 5 2000) false; ETick (rd 5 5) true]. vm_compute. auto. Qed.
-Print Assumptions C09_monotone_sent_refuted.
+(* an Interim (1500000) is in flight - sent, no response yet - when the session is released with no dataplane reading:
+   the Stop is not below it; the response arriving afterwards changes nothing for the stream *)
+Definition ex_inflight : list sev :=
+  [EActive 5 0; ETick (rd 5 500000) true; ETick (rd 5 1500000) false; EReleased (Snaps (Some []) None); EAck].
+Example C09_nonvacuous_inflight :
+  lrun_wraps head false sst0 ex_inflight = false /\ no_prune ex_inflight = true /\
+  sent_rxb (outputs (snd (lrun head false sst0 ex_inflight))) = [500000; 1500000; 1500000] /\
+  sent_rxb (outputs (snd (lrun before_9b87063 false sst0 ex_inflight))) = [500000; 1500000; 500000].
+Proof. vm_compute. repeat split. Qed.
+Print Assumptions C09_nonvacuous_inflight.
 
+(* ================= /repo HEAD violates the property (the finding still open) ================= *)
 (* a delayed Start goroutine: the backend sees the Stop (or an Interim) before the Start *)
 Theorem C09_delivered_strict_refuted :
   exists xs, lrun_wraps head false sst0 (dev_events xs) = false /\ no_prune (dev_events xs) = true /\
@@ -269,7 +276,16 @@ Theorem C09_delivered_strict_refuted :
 Proof. exists [DHold true; DEv (EActive 5 0); DEv (EReleased (rd 5 9)); DRelease]. vm_compute. auto. Qed.
 Print Assumptions C09_delivered_strict_refuted.
 
-(* ================= the code as first found (fixed in /repo: 7e92d8e, e0693a6, d70a5ae) ================= *)
+(* ================= historical: fixed in /repo ================= *)
+(* fixed in 9b87063: a report whose Accounting-Response was lost (2000) was followed by a smaller one (1005) *)
+Theorem C09_before_9b87063_monotone_sent_refuted :
+  exists evs, lrun_wraps before_9b87063 false sst0 evs = false /\ no_prune evs = true /\
+              nondecreasing_sent c4z (outputs (snd (lrun before_9b87063 false sst0 evs))) = false.
+Proof. exists [EActive 5 0; ETick (rd 5 1000) true; ETick (rd 5 2000) false; ETick (rd 5 5) true]. vm_compute. auto. Qed.
+Print Assumptions C09_before_9b87063_monotone_sent_refuted.
+
+
+(* the code as first found (fixed in 7e92d8e, e0693a6, d70a5ae) *)
 Theorem C09_first_found_monotone_refuted :
   exists evs, lrun_wraps defective false sst0 evs = false /\ no_prune evs = true /\
               nondecreasing c4z (outputs (snd (lrun defective false sst0 evs))) = false.
